@@ -753,6 +753,17 @@ namespace
         }
     };
 
+    // one node, one list output, two independently ticking elements (references to positions of the same output)
+    struct VPack2
+    {
+        static constexpr auto name = "v_pack2";
+        static void           eval(In<"x", TS<Int>, InputValidity::Unchecked> x, In<"y", TS<Int>, InputValidity::Unchecked> y, Out<L2> out)
+        {
+            if (x.modified()) { out[0].set(x.value()); }
+            if (y.modified()) { out[1].set(y.value()); }
+        }
+    };
+
     using TryIntResult = UnNamedTSB<Field<"exception", TS<NodeError>>, Field<"out", TS<Int>>>;
 
     struct VTryOut
@@ -792,6 +803,7 @@ namespace
         std::map<long, P>                        ports;     // node id -> output port
         std::map<long, Port<void>>               erased;    // node id -> erased output (try_except results)
         std::map<long, Port<DInt>>               dports;    // node id -> dictionary output port
+        std::map<long, Port<L2>>                 lports;    // node id -> two-element list output port
         std::optional<P>                         key;       // the `key` port of a mapped child graph
         std::map<long, std::shared_ptr<void>>    feedbacks; // node id -> feedback handle
     };
@@ -930,7 +942,7 @@ namespace
             const std::string kind = l.pos.at(2);
             NodeSpec         &sp   = spec_of(id);
             std::vector<P>    in;
-            if (kind != "drec" && kind != "map" && kind != "reduce" && kind != "rrec" && kind != "mesh")
+            if (kind != "drec" && kind != "map" && kind != "reduce" && kind != "rrec" && kind != "mesh" && kind != "elem")
             {
                 for (auto &r : sp.ins) { in.push_back(resolve(env, r)); }
             }
@@ -1045,6 +1057,8 @@ namespace
                 env.dports.emplace(id, (*static_cast<FB *>(h.get()))());
                 env.feedbacks[id] = h;
             }
+            else if (kind == "pack2") { env.lports.emplace(id, wire<VPack2>(w, in.at(0), in.at(1))); }
+            else if (kind == "elem") { env.ports.emplace(id, tsl_element(env.lports.at(std::stol(sp.ins.at(0))), static_cast<std::size_t>(l.geti("i", 0)))); }
             else if (kind == "sched") { wire<VSched>(w, sid, in.at(0)); }
             else if (kind == "lsrc") { env.ports.emplace(id, wire<LSrc>(w, sid, Int{l.geti("cnt", 2)})); }
             else if (kind == "lpass") { env.ports.emplace(id, wire<LPass>(w, sid, in.at(0))); }
